@@ -1659,7 +1659,7 @@ impl LsmTree {
     #[cfg(rescrv_blue_verif)]
     pub fn verif_manifest(&self) -> (Vec<String>, Option<String>) {
         let mani = self.mani.read().unwrap();
-        (mani.strs().cloned().collect(), mani.info('O').map(|s| s.to_string()))
+        (mani.strs().map(|s| s.to_string()).collect(), mani.info('O').map(|s| s.to_string()))
     }
 
     /// Verification hook: would an ingest wait now; is a compaction selectable now (the
